@@ -164,3 +164,18 @@ Theorem C10_built_globs_without_repetitions_sound_unconditionally : forall (orbi
   in_variance (ncomp p) v.
 Proof. exact built_rep_free_depth_sound. Qed.
 Print Assumptions C10_built_globs_without_repetitions_sound_unconditionally.
+
+From WaxProofs Require Import DepthRooted.
+
+(* the same with the rootedness condition stated through the query has_root, as in the property's quantifier ("relative when the pattern
+   is unrooted and rooted when it is rooted"): a built glob without repetitions reports Always or Never (C12), and the verdict decides how
+   every expansion begins *)
+Theorem C10_built_globs_without_repetitions_sound_for_paths_rooted_like_the_glob : forall (orbit : char -> list char), (forall c d, In d (orbit c) -> d <> SEP) ->
+  forall e t r v p,
+  build e = BuildOk t r -> rep_free t = true ->
+  depth_variance t = Ok v -> depth_closed_variant t = false ->
+  Lang orbit t p -> canonical p = true -> 1 <= ncomp p ->
+  starts_sep p = (match has_root t with Always => true | _ => false end) ->
+  in_variance (ncomp p) v.
+Proof. exact built_rep_free_depth_sound_rooted. Qed.
+Print Assumptions C10_built_globs_without_repetitions_sound_for_paths_rooted_like_the_glob.
